@@ -40,6 +40,8 @@ func main() {
 	case "gcdebug":
 		n, _ := strconv.Atoi(os.Args[2])
 		gcdebug(n)
+	case "witness":
+		witness(os.Args[2], os.Args[3], os.Args[4])
 	case "probe":
 		probe(os.Args[2])
 	case "list":
